@@ -1062,6 +1062,10 @@ func (b *Builder) fields(depth int, own *model.Method, sd *spec.TypeDecl) ([]spe
 		if sd != nil && !b.O.SamePkg && !b.O.SourcesInConv && !b.inUpdate {
 			variants = append(variants, "unexported-source-type")
 		}
+		if b.inUpdate && !b.comparableOnly && !b.noNillable {
+			// members that zero guards treat as nillable: named and unnamed maps of basics
+			variants = append(variants, "map-member", "map-member")
+		}
 		if !b.comparableOnly && !b.noNillable {
 			variants = append(variants, "embedded")
 		}
@@ -1120,6 +1124,21 @@ func (b *Builder) fields(depth int, own *model.Method, sd *spec.TypeDecl) ([]spe
 			b.label("field:unexported-source-type")
 			fs = append(fs, spec.F(nm, spec.Named(b.A.Key, tn)))
 			ft = append(ft, spec.F(nm, t))
+		case "map-member":
+			nm := name()
+			ks, kt := b.keyPair()
+			vs, vt := b.leafBasic()
+			ms, mt := spec.Map(ks, vs), spec.Map(kt, vt)
+			if b.coin("map-member-named") {
+				id := b.id()
+				sn, tn := fmt.Sprintf("NM%d", id), fmt.Sprintf("MM%d", id)
+				b.A.Types = append(b.A.Types, &spec.TypeDecl{Name: sn, U: ms})
+				b.B.Types = append(b.B.Types, &spec.TypeDecl{Name: tn, U: mt})
+				ms, mt = spec.Named(b.A.Key, sn), spec.Named(b.B.Key, tn)
+				b.label("field:named-map-member")
+			}
+			fs = append(fs, spec.F(nm, ms))
+			ft = append(ft, spec.F(nm, mt))
 		case "tagged":
 			nm := name()
 			s, t := b.pairAssign(depth - 1)
